@@ -15,6 +15,7 @@ const (
 	nkDense
 	nkStore
 	nkCopy
+	nkHex // lower-case hex encoding of src[srcOff:]
 )
 
 type logNode struct {
@@ -161,6 +162,11 @@ func (ex *Exec) readNode(nd *logNode, idx *smt.Term) *smt.Term {
 		if !nd.shared {
 			return res
 		}
+	case nkHex:
+		half := tb.Lshr(idx, ex.c64(1))
+		b := ex.readNode(nd.src, tb.Add(nd.srcOff, half))
+		nib := tb.Ite(tb.Eq(tb.Extract(idx, 0, 0), tb.Const(0, 1)), tb.Lshr(b, tb.Const(4, 8)), tb.BAnd(b, tb.Const(15, 8)))
+		res = tb.Ite(tb.Ult(nib, tb.Const(10, 8)), tb.Add(nib, tb.Const('0', 8)), tb.Add(nib, tb.Const('a'-10, 8)))
 	case nkStore:
 		hit := tb.Eq(idx, nd.idx)
 		if hit.IsTrue() {
